@@ -170,7 +170,9 @@ func runC14(t *testing.T, c c14Cfg) {
 	cw.pa = s.Peek(pgvr, sc.ns(), sc.parentName())
 	cw.pb = s.MustCreate(pgvr, mkParent("pb-"+uid, true, "a-"+uid, c.Finalize))
 	cw.pn = s.MustCreate(pgvr, mkParent("pn-"+uid, false, "a-"+uid, false))
-	cw.pf = s.MustCreate(pgvr, mkParent("pf-"+uid, false, "f-"+uid, true))
+	pfo := mkParent("pf-"+uid, false, "f-"+uid, true)
+	sim.SetNested(pfo, "hold", "spec", "finalize") // its finalization does not finish during the test
+	cw.pf = s.MustCreate(pgvr, pfo)
 	r.parent = cw.pa
 	if err := w.start(); err != nil {
 		inconclusive(t, "C14", id, err)
@@ -279,6 +281,8 @@ func runC14(t *testing.T, c c14Cfg) {
 	})
 	cw.expect("child-delete(owned)", []string{ka}, func() { s.ExtDelete(cgvr, cns, "owned1-"+uid, "") })
 	cw.expect("child-add(owned-by-unmatched-parent,finalizer="+fmt.Sprint(len(wantF) > 0)+")", wantF, func() { s.MustCreate(cgvr, sim.AddOwner(child("ownedf", nil), cw.pf, true)) })
+	cw.expect("child-update(owned-by-unmatched-parent,finalizer="+fmt.Sprint(len(wantF) > 0)+")", wantF, touch(cinfo, cns, "ownedf-"+uid))
+	cw.expect("child-delete(owned-by-unmatched-parent,finalizer="+fmt.Sprint(len(wantF) > 0)+")", wantF, func() { s.ExtDelete(cgvr, cns, "ownedf-"+uid, "") })
 	pnObj := s.Peek(pgvr, sc.ns(), "pn-"+uid)
 	cw.expect("child-add(owned-by-unmanaged-parent)", none, func() { s.MustCreate(cgvr, sim.AddOwner(child("ownedn", nil), pnObj, true)) })
 	wrongUID := sim.DeepCopy(cw.pa)
@@ -377,7 +381,7 @@ func runC14(t *testing.T, c c14Cfg) {
 		inconclusive(t, "C14", id, w.watchdog)
 		return
 	}
-	rep.Case("C14", id, cw.nev > 0, id, map[string]interface{}{"cfg": c, "events": cw.nev, "asExpected": cw.okev})
+	rep.Case("C14", id, cw.nev > 0, id, map[string]interface{}{"unmatchedParentHoldsFinalizer": len(wantF) > 0, "cfg": c, "events": cw.nev, "asExpected": cw.okev})
 }
 
 func objKeyOf(ns, name string) string {
